@@ -192,7 +192,7 @@ PLAN = {
         "jobs": [
             {"monitor": "c12_natural", "variant": "rel", "shards": 16},
             {"monitor": "c12_natural", "variant": "dbg", "shards": 16},
-            {"monitor": "c12_natural", "variant": "miri", "shards": {"quick": 2, "thorough": 16}, "param": None, "timeout": {"quick": 1500, "thorough": 3000}, "tiers": ("thorough",)},
+            {"monitor": "c12_natural", "variant": "miri", "shards": 64, "only_shards": 16, "timeout": {"thorough": 3000}, "tiers": ("thorough",)},
             {"monitor": "c12_satcount", "variant": "rel", "shards": 16},
             {"monitor": "c12_cache", "variant": "rel", "shards": 16},
             {"monitor": "c12_cache", "variant": "dbg", "shards": 8},
@@ -267,6 +267,50 @@ PLAN = {
         ],
         "require_counters": {"all": ["schedules", "context_switches", "scenarios_enumerated_completely", "stress_rounds", "tiny_scenarios", "gcs_that_freed"]},
     },
+    "C16": {
+        "level": "exploration",
+        "exhaustive": True,
+        "rule": "VarNameMap directly: ALL call sequences of length <= 5 (quick) / <= 6 (thorough) over add_unnamed(1|2), add_named([x]), "
+                "add_named([x,y]), get_or_add(x), set_var_name(v,x), clone+drop(original), clone+drop(clone) with names from {\"\",a,b,c}, "
+                "ended by drop or into_names_iter (full/reversed/partial/nth): after every call len, named_count, var_name(v) for all v, "
+                "name_to_var for every name of the alphabet and an unused one, exact error values and state of rejected calls, against a "
+                "Vec<String>+HashMap model; random sequences with unicode / very long / whitespace names; real managers (bdd, bcdd, zbdd, "
+                "mtbdd, tdd): add_vars / add_named_vars / add_named_vars_from_map / set_var_name interleaved with handle creation, gc, "
+                "set_var_order: num_vars == num_levels, names, maps inverse, every existing handle's table unchanged. distinct = call "
+                "sequences containing a named variable.",
+        "assumptions": ["memory leaks are recorded as observations (not part of the property)"],
+        "jobs": [
+            {"monitor": "c16_map_exh", "variant": "rel", "shards": 16},
+            {"monitor": "c16_map_rand", "variant": "rel", "shards": 16},
+            {"monitor": "c16_map_leak", "variant": "rel", "shards": 1},
+            {"monitor": "c16_mgr", "variant": "rel", "shards": 16},
+            {"monitor": "c16_mgr", "variant": "dbg", "shards": 8},
+            # Miri (manual memory management of the names): 1/64 of the sequence space per shard, ~3 min each
+            {"monitor": "c16_map_exh", "variant": "miri", "shards": 64, "only_shards": 16, "param": "hard", "timeout": {"thorough": 3000}, "tiers": ("thorough",)},
+        ],
+        "require_counters": {"all": ["renames", "clones", "rejected_calls", "reorderings"]},
+    },
+    "C17": {
+        "level": "exploration",
+        "exhaustive": True,
+        "rule": "RawTable<_, u32> and <_, usize>: EVERY operation sequence up to length 4 (6 keys) / 5 (3 keys) in quick, 5 / 6 / 7 (2 keys) in "
+                "thorough over insert k, remove k (remove_entry and find+remove_at_slot), retain(even), retain(none), drain, drain dropped "
+                "half-way, clear, clear_no_drop, reset_no_drop, reserve(2), reserve(13), clone-and-continue, from 5 start states (new, "
+                "empty 16 slots, tombstone-rich, full, sparse 32 slots) under 6 adversarial hash functions (all 0, all u64::MAX, equal "
+                "below bit 29, wrapping clusters, identity, multiplicative); after the last operation find/get/get_mut for all keys, len, "
+                "iter/iter_mut exactly once, live-instance counts (double drop / leak), verif_audit(); table then consumed by into_iter / "
+                "partial into_iter / drain / drop. Random grow/shrink sequences of 1e5..1e6 operations with audit + lookups after every "
+                "operation. Hook: probe-step bound makes non-termination a deterministic panic. distinct = (hash function, start state, "
+                "operation sequence) classes as described in the monitor's sample string.",
+        "assumptions": ["allocator variants (new_in) are not exercised separately"],
+        "jobs": [
+            {"monitor": "c17_exh", "variant": "rel", "shards": 16},
+            {"monitor": "c17_rand", "variant": "rel", "shards": 16},
+            {"monitor": "c17_rand", "variant": "dbg", "shards": 8, "tiers": ("thorough",)},
+            {"monitor": "c17_rand", "variant": "miri", "shards": 56, "only_shards": 16, "param": "tiny", "timeout": {"thorough": 3000}, "tiers": ("thorough",)},
+        ],
+        "require_counters": {"all": ["grows", "rehashes_or_shrinks", "sequences"]},
+    },
     "C08": {
         "level": "exploration",
         "exhaustive": True,
@@ -302,6 +346,22 @@ PLAN = {
 HOOK_COMMITS = []
 
 MANIFEST_TEXT = {
+    "C16": {
+        "text": "Held on every executed case: all call sequences up to length 5/6 on the name map against a Vec+HashMap model with every "
+                "lookup re-checked after every call; random unicode sequences; real managers of five kinds with handles, gc and "
+                "reordering in between; the exhaustive monitor also under Miri (manual memory management of the names).",
+        "design_ref": "DESIGN.md section 5 / C16",
+        "note": "Trusted: name model in harness/src/mon/c16.rs. ZBDD managers with nodes are never reordered (known finding C08).",
+        "technique": "runtime monitoring: reference-model oracle over exhaustive short call sequences + seeded random sequences, Miri for memory safety",
+    },
+    "C17": {
+        "text": "Held on every executed sequence: exhaustive short operation sequences over adversarial hash functions and start states "
+                "plus long random grow/shrink sequences, each compared with a BTreeSet model and the table's internal accounting "
+                "(verif_audit hook); probe loops are bounded by a hook so that non-termination is an event, not a timeout.",
+        "design_ref": "DESIGN.md section 5 / C17",
+        "note": "Trusted: BTreeSet model, audit hook in linear-hashtbl (cfg oxidd_verif).",
+        "technique": "runtime monitoring: set reference model + invariant hook (slot accounting, probe bound) over exhaustive and random operation sequences",
+    },
     "C12": {
         "text": "Held on every executed case: exact agreement of Natural with an independent schoolbook big integer on all boundary "
                 "pairs and random operands; sat_count for every number type equal to popcount(table)*2^(vars-n) (exact / saturated "
